@@ -218,6 +218,8 @@ func runSim(w *Workload, prep [][]*Prepared, warm []*Prepared, cfg RunCfg, keepE
 	// that the caller really is the task holding the baton
 	sim.SetCheckGoid(rewriteGoStmts > 0)
 	installPermHook(cfg.PermSeed, 0)
+	simrt.StartClock(cfg.Seed)
+	defer simrt.StopClock()
 	for t := range w.Tasks {
 		t := t
 		res.Outcomes[t] = make([]Outcome, len(w.Tasks[t]))
@@ -391,10 +393,16 @@ func randomMerge(w *Workload, rng *simrt.Rng) [][2]int {
 	}
 }
 
-func permutations(n int) [][]int {
+// permutations returns up to limit permutations of [0,n) (all of them if there are fewer),
+// starting with the identity; for larger n the tail of the list is filled with rotations so that
+// every task comes first at least once.
+func permutations(n, limit int) [][]int {
 	var out [][]int
 	var rec func(cur []int, used int)
 	rec = func(cur []int, used int) {
+		if len(out) >= limit {
+			return
+		}
 		if len(cur) == n {
 			out = append(out, append([]int{}, cur...))
 			return
@@ -405,7 +413,24 @@ func permutations(n int) [][]int {
 			}
 		}
 	}
-	rec(nil, 0)
+	if n <= 4 {
+		rec(nil, 0)
+		return out
+	}
+	for r := 0; r < n && len(out) < limit; r++ {
+		p := make([]int, n)
+		for i := range p {
+			p[i] = (i + r) % n
+		}
+		out = append(out, p)
+		if len(out) < limit {
+			q := make([]int, n)
+			for i := range q {
+				q[i] = p[n-1-i]
+			}
+			out = append(out, q)
+		}
+	}
 	return out
 }
 
@@ -473,10 +498,7 @@ func computeAdmissible(w *Workload, prep [][]*Prepared, warm []*Prepared, seed u
 		a.orders++
 	}
 	// (ii) every task-major order (all permutations for <=4 tasks)
-	perms := permutations(len(w.Tasks))
-	if len(perms) > 24 {
-		perms = perms[:24]
-	}
+	perms := permutations(len(w.Tasks), 24)
 	for _, p := range perms {
 		addRun(taskMajor(w, p), fmt.Sprintf("tasks one after the other in order %v on one shared instance", p))
 	}
